@@ -144,7 +144,7 @@ func TestVerifC04EngineGroups(t *testing.T) {
 	}
 	sigClasses := []string{"valid", "valid", "valid-encrypted-body", "valid-multiblock-secret", "valid-ts-near-past-edge",
 		"tamper-body", "tamper-signature", "tamper-query", "ts-too-old", "header-missing", "fingerprint-unknown",
-		"valid-ts-unusual-spelling", "tamper-timestamp-spelling"}
+		"valid-ts-unusual-spelling", "tamper-timestamp-spelling", "valid-escaped-path"}
 	n := vk.N(1500, 30000)
 	for idx := 1; idx <= n; idx++ {
 		if !m.Only(idx) {
